@@ -6,6 +6,8 @@ alternative spelling, and returns True for the constructor form.  The default
 renders operator forms, fully parenthesised.
 """
 
+import re
+
 
 def _q(s):
     if isinstance(s, bytes):
@@ -34,10 +36,25 @@ ALT_KINDS = ('opt', 'star', 'plus', 'right', 'left', 'choice', 'seq', 'sep', 're
 
 
 class Renderer:
-    def __init__(self, alt=None, bytes_mode=False):
+    def __init__(self, alt=None, bytes_mode=False, opbreak=None, parens=False):
         self.alt = alt
         self.bytes_mode = bytes_mode
         self.n = 0
+        self.opbreak = opbreak      # None | 'before' | 'after': line break around binary operators
+        self.parens = parens        # redundant parentheses around composite expressions
+
+    def op(self, sym):
+        if self.opbreak == 'before':
+            return '\n        %s ' % sym
+        if self.opbreak == 'after':
+            return ' %s\n        ' % sym
+        return ' %s ' % sym
+
+    def r(self, e):
+        t = self.r0(e)
+        if self.parens and e[0] in ('seq', 'choice', 'right', 'left', 'opt', 'star', 'plus', 'call', 'ref', 'str', 'sep', 'apply', 'where'):
+            return '(%s)' % t
+        return t
 
     def use_alt(self, kind):
         if self.alt is None:
@@ -56,7 +73,7 @@ class Renderer:
             return '`%s`' % b[1]
         return str(b)
 
-    def r(self, e):
+    def r0(self, e):
         k = e[0]
         R = self.r
         if k == 'str':
@@ -127,16 +144,16 @@ class Renderer:
         if k in ('right', 'left'):
             if self.use_alt(k):
                 return '%s(%s, %s)' % ('Right' if k == 'right' else 'Left', R(e[1]), R(e[2]))
-            return '(%s %s %s)' % (R(e[1]), '>>' if k == 'right' else '<<', R(e[2]))
+            return '(%s%s%s)' % (R(e[1]), self.op('>>' if k == 'right' else '<<'), R(e[2]))
         if k == 'choice':
             if self.use_alt(k):
                 return 'Choice(%s)' % ', '.join(R(x) for x in e[1:])
-            return '(%s)' % ' | '.join(R(x) for x in e[1:])
+            return '(%s)' % self.op('|').join(R(x) for x in e[1:])
         if k == 'sep':
             _, el, sp, disc, trail, empty, req = e
             sugar = disc and empty and not req
             if sugar and not self.use_alt(k):
-                return '(%s %s %s)' % (R(el), '/?' if trail else '//', R(sp))
+                return '(%s%s%s)' % (R(el), self.op('/?' if trail else '//'), R(sp))
             kw = []
             if not disc:
                 kw.append('discard_separators=False')
@@ -150,11 +167,11 @@ class Renderer:
         if k == 'let':
             return '(let %s = %s in %s)' % (e[1], R(e[2]), R(e[3]))
         if k == 'where':
-            return '(%s where %s)' % (R(e[1]), R(e[2]))
+            return '(%s%s%s)' % (R(e[1]), self.op('where'), R(e[2]))
         if k == 'apply':
-            return '(%s |> %s)' % (R(e[1]), R(e[2]))
+            return '(%s%s%s)' % (R(e[1]), self.op('|>'), R(e[2]))
         if k == 'applyl':
-            return '(%s <| %s)' % (R(e[1]), R(e[2]))
+            return '(%s%s%s)' % (R(e[1]), self.op('<|'), R(e[2]))
         if k == 'call':
             a = [R(x) for x in e[2]] + ['%s=%s' % (kk, R(x)) for kk, x in e[3]]
             return '%s(%s)' % (e[1], ', '.join(a))
@@ -178,9 +195,14 @@ def expr(e, alt=None, bytes_mode=False):
     return Renderer(alt, bytes_mode).r(e)
 
 
-def spec(sp, alt=None, eq='=', sep='\n'):
-    """Render a Spec to a grammar description."""
-    R = Renderer(alt, sp.bytes_mode)
+def spec(sp, alt=None, eq='=', sep='\n', opbreak=None, parens=False, comments=False, blank=False,
+         ignore_kw=None, bare=False):
+    """Render a Spec to a grammar description (layout options: C19)."""
+    R = Renderer(alt, sp.bytes_mode, opbreak, parens)
+    if bare:
+        # a grammar that is just an expression
+        assert len(sp.rules) == 1 and not sp.ignores and not sp.name
+        return R.r(sp.rules[0][1][2]) + '\n'
     lines = []
     if sp.name:
         head = 'grammar %s' % sp.name
@@ -217,9 +239,16 @@ def spec(sp, alt=None, eq='=', sep='\n'):
                     ms.append('    requires %s' % R.r(ex))
                 else:
                     ms.append('    pass %s' % R.r(ex))
-            body.append('class %s%s {\n%s\n}' % (name, ps, '\n'.join(ms)))
-    if sp.ignore_style == 'anon_after':
-        lines += body + ign
-    else:
-        lines += ign + body
-    return sep.join(lines) + '\n'
+            body.append('class %s%s {\n%s\n}' % (name, ps, ('\n' if sep == '\n' else ';\n').join(ms)))
+    if ignore_kw:
+        ign = [re.sub(r'^ignored?\b', ignore_kw, x) for x in ign]
+    head, stmts = lines, (body + ign if sp.ignore_style == 'anon_after' else ign + body)
+    glue = sep
+    if comments:
+        glue = '  # trailing comment\n# a comment line: "not" = a | rule\n' if sep == '\n' else sep
+    if blank:
+        glue = glue + '\n\n' if sep == '\n' else glue + '\n'
+    text = '\n'.join(head) + ('\n' if head else '') + glue.join(stmts) + '\n'
+    if comments:
+        text = '# leading comment\n' + text + '# last comment'
+    return text
